@@ -4,6 +4,7 @@
 //! function is declared nowhere in its section; (2) tie of parse_lcov to the Lean byte-machine
 //! `Lcov.parse` on well-formed and malformed inputs. Minimised past failures (corpus/C04/*.json and
 //! `witnesses()`) are replayed first.
+mod exc;
 use corrlib::*;
 use corrlib::lcov::*;
 use grcov::parse_lcov;
@@ -254,6 +255,9 @@ pub fn run(rep: &mut Report) {
                 several blocks per line, negative counts, other lcov record types, blank lines, LF/CRLF, UTF-8 \
                 names with commas) rendered and parsed; the same with one FNDA made undeclared (must be Err(Parse)); \
                 five fixed lcov 2.x tracefiles (FN:<start>,<end>,<name>; known finding C04-lcov2-fn-end-line); \
+                generated ASTs in which about half of the BRDA records are lcov 2.x exception branches \
+                (BRDA:<line>,e<block>,<branch>,<taken>; finding C04-lcov2-exception-branch, matched against the \
+                predicted misreading); \
                 plus a malformed stream (mutated renders, random lcov-ish bytes) for the tie; non-trivial = the file \
                 has ≥1 DA and (≥1 BRDA or ≥1 FN) or is malformed; distinct = distinct input bytes"
         .to_string();
@@ -320,6 +324,8 @@ pub fn run(rep: &mut Report) {
     }
     // ---- lcov 2.x function records (known finding, witnessed on every run) -----------------------
     lcov2_stream(rep, &mut reqs, &mut impl_out, &mut inputs);
+    // ---- lcov 2.x exception branches (finding C04-lcov2-exception-branch) -----------------------
+    exc::run(rep, &mut rng, &run_impl, &mut reqs, &mut impl_out, &mut inputs);
     // ---- malformed stream ---------------------------------------------------------------------
     let m = rep.budget(6_000, 30);
     for _ in 0..m {
@@ -481,6 +487,7 @@ const TOKENS: &[&str] = &[
     "SF:", "DA:", "FN:", "FNDA:", "BRDA:", "end_of_record", "TN:", "LF:", "BRF:", "e", "\n", "\r\n", ",",
     "-", "0", "1", "12", "4294967295", "4294967296", "18446744073709551615", "18446744073709551616",
     "99999999999999999999999", "a.c", "main", "é", "\u{0}", " ", "S", "D", "F", "B", "FNL:", "ABCDE", ":", "-5",
+    ",e", "e3", "BRDA:7,e",
 ];
 
 /// a BRDA branch number is an allocation size (known finding C14-lcov-branch-alloc): keep the
@@ -663,7 +670,13 @@ pub fn replay(rep: &mut Report, case: &serde_json::Value) {
             let got = run_impl(&bytes, branch);
             rep.case(&hex(&bytes), true);
             if got != case["spec"].as_str().unwrap() {
-                rep.fail("oracle", None, "parse_lcov(tracefile) != recorded spec outcome".into(), case.clone());
+                // the recorded misreading of an lcov 2.x exception branch keeps its finding id
+                let finding = if branch && exc::has_exception_branch(&bytes) && case["reader_view"].as_str() == Some(got.as_str()) {
+                    Some(exc::FINDING)
+                } else {
+                    None
+                };
+                rep.fail("oracle", finding, "parse_lcov(tracefile) != recorded spec outcome".into(), case.clone());
             }
         }
         "lcov.parse" => {
